@@ -9,8 +9,9 @@
    the encoder, bytecode offsets (N) in what the reader produces before [sem]. *)
 From FB Require Export C01.Bytes C01.Opcodes.
 
-Inductive operand (T : Type) := OpN (n : N) | OpZ (z : Z) | OpT (t : T).
-Arguments OpN {T} n. Arguments OpZ {T} z. Arguments OpT {T} t.
+(* OpC: a constant-pool index together with the accessor it is resolved with (numbering of Opcodes.v) *)
+Inductive operand (T : Type) := OpN (n : N) | OpZ (z : Z) | OpT (t : T) | OpC (kind idx : N).
+Arguments OpN {T} n. Arguments OpZ {T} z. Arguments OpT {T} t. Arguments OpC {T} kind idx.
 
 Inductive ainsn (T : Type) :=
 | Gen (ctor : N) (ops : list (operand T))
@@ -19,7 +20,7 @@ Inductive ainsn (T : Type) :=
 Arguments Gen {T} ctor ops. Arguments TSw {T} dflt low high tbl. Arguments LSw {T} dflt pairs.
 
 Definition map_op {A B} (f : A -> B) (o : operand A) : operand B :=
-  match o with OpN n => OpN n | OpZ z => OpZ z | OpT t => OpT (f t) end.
+  match o with OpN n => OpN n | OpZ z => OpZ z | OpT t => OpT (f t) | OpC k i => OpC k i end.
 Definition map_insn {A B} (f : A -> B) (i : ainsn A) : ainsn B :=
   match i with
   | Gen c ops => Gen c (map (map_op f) ops)
@@ -84,11 +85,13 @@ Definition rel_off (posf : nat -> N) (pos : N) (t : nat) : Z := (Z.of_N (posf t)
 
 Definition enc_op (posf : nat -> N) (pos : N) (r : rdk) (o : operand nat) : option bytes :=
   match r, o with
-  | RU8, OpN n | RLv8, OpN n | RCp8 _, OpN n => if n <? 256 then Some [n] else None
+  | RU8, OpN n | RLv8, OpN n => if n <? 256 then Some [n] else None
+  | RCp8 k, OpC k' n => if (k =? k') && (n <? 256) then Some [n] else None
+  | RCp16 k, OpC k' n => if (k =? k') && (n <? 65536) then Some (be16 n) else None
   | RAtype, OpN n => if mem_N n atypes then Some [n] else None
   | RI8, OpZ z => if fits8 z then Some [u8 z] else None
   | RI16, OpZ z => if fits16 z then Some (bei16 z) else None
-  | RLv16, OpN n | RCp16 _, OpN n => if n <? 65536 then Some (be16 n) else None
+  | RLv16, OpN n => if n <? 65536 then Some (be16 n) else None
   | RBr16, OpT t => if fits16 (rel_off posf pos t) then Some (bei16 (rel_off posf pos t)) else None
   | RBr32, OpT t => if fits32 (rel_off posf pos t) then Some (bei32 (rel_off posf pos t)) else None
   | _, _ => None
@@ -273,14 +276,18 @@ Fixpoint dec_ops (ls : labels) (pos : N) (rs : list rdk) (s : bytes) : res (list
   | r :: rs' =>
     match r with
     | RSkip8 => do (_, s1) <- rd_u8 s; dec_ops ls pos rs' s1
-    | RU8 | RLv8 | RCp8 _ =>
+    | RU8 | RLv8 =>
       do (v, s1) <- rd_u8 s; do (os, s2) <- dec_ops ls pos rs' s1; Ok (OpN v :: os, s2)
+    | RCp8 k =>
+      do (v, s1) <- rd_u8 s; do (os, s2) <- dec_ops ls pos rs' s1; Ok (OpC k v :: os, s2)
+    | RCp16 k =>
+      do (v, s1) <- rd_u16 s; do (os, s2) <- dec_ops ls pos rs' s1; Ok (OpC k v :: os, s2)
     | RAtype =>
       do (v, s1) <- rd_u8 s;
       if mem_N v atypes then do (os, s2) <- dec_ops ls pos rs' s1; Ok (OpN v :: os, s2) else Err
     | RI8 => do (v, s1) <- rd_i8 s; do (os, s2) <- dec_ops ls pos rs' s1; Ok (OpZ v :: os, s2)
     | RI16 => do (v, s1) <- rd_i16 s; do (os, s2) <- dec_ops ls pos rs' s1; Ok (OpZ v :: os, s2)
-    | RLv16 | RCp16 _ =>
+    | RLv16 =>
       do (v, s1) <- rd_u16 s; do (os, s2) <- dec_ops ls pos rs' s1; Ok (OpN v :: os, s2)
     | RBr16 =>
       do (off, s1) <- rd_i16 s; do t <- br_target pos off; do l <- try_get ls t;
